@@ -119,6 +119,55 @@ pub fn check_case(ctx: &Ctx, tree: &Tree, prof: &Profile, thresh: f64) -> bool {
     ok
 }
 
+/// the statement, applied to one profile: survivors are the actions above the threshold, rescaled
+/// proportionally; an infoset without survivors (or from which nothing is removed) stays as it is
+pub fn ref_truncate(prof: &Profile, thresh: f64) -> Profile {
+    let mut res = prof.clone();
+    for pl in 0..2 {
+        for probs in res[pl].values_mut() {
+            let total: f64 = probs.iter().filter(|p| **p > thresh).sum();
+            let removes = probs.iter().any(|p| *p > 0.0 && *p <= thresh);
+            if total > 0.0 && removes {
+                for p in probs.iter_mut() {
+                    *p = if *p > thresh { *p / total } else { 0.0 };
+                }
+            }
+        }
+    }
+    res
+}
+
+/// Two truncations in a row on one object (and on a clone taken in between): each must act on the
+/// profile the object holds at that moment, whatever was done to it before
+pub fn check_sequence(ctx: &Ctx, tree: &Tree, prof: &Profile, first: f64, second: f64) -> bool {
+    let replay = json!({"tree": tree.to_replay(), "profile": profile_json(prof), "threshold": first, "second": second});
+    let res = guarded(|| -> Result<(Profile, Profile, Profile), String> {
+        let game = build(tree).map_err(|e| format!("{:?}", e))?;
+        let mut strat = inject(&game, tree, prof).map_err(|e| format!("{:?}", e))?;
+        let stored = read_profile(tree, &strat)?;
+        strat.truncate(first);
+        let mut copy = strat.clone();
+        strat.truncate(second);
+        copy.truncate(second);
+        Ok((stored, read_profile(tree, &strat)?, read_profile(tree, &copy)?))
+    });
+    match res {
+        Err(msg) | Ok(Err(msg)) => {
+            ctx.violation("panic", &msg, replay);
+            false
+        }
+        Ok(Ok((stored, got, got_copy))) => {
+            let want = ref_truncate(&ref_truncate(&stored, first), second);
+            let same = |a: &Profile, b: &Profile| (0..2).all(|pl| a[pl].iter().all(|(k, v)| b[pl].get(k).map(|w| v.iter().zip(w.iter()).all(|(x, y)| close(*x, *y, 1e-12))).unwrap_or(false)));
+            if !same(&want, &got) || !same(&want, &got_copy) {
+                ctx.violation("sequence-differs", &format!("truncate({}) then truncate({}) gives {:?} (on a clone taken in between: {:?}), the statement applied twice gives {:?}, from {:?} on {}", first, second, got, got_copy, want, stored, tree.show()), replay);
+                return false;
+            }
+            true
+        }
+    }
+}
+
 /// the profile as the library holds it after import
 pub fn stored_profile(tree: &Tree, prof: &Profile) -> Option<Profile> {
     let game = build(tree).ok()?;
@@ -149,6 +198,19 @@ pub fn run(ctx: &Ctx) -> i32 {
                 if gi % 997 == 0 && pi == profs.len() / 2 && thresh == 0.25 {
                     ctx.sample("game+profile+threshold", json!({"tree": tree.show(), "profile": profile_json(prof), "threshold": thresh}));
                 }
+            }
+        }
+    });
+    // two truncations in a row with different thresholds (in both orders), on every game with at
+    // least two decision infosets of the small universe and the families
+    let seq_games: Vec<&Tree> = games.iter().filter(|t| crate::refmodel::game_dims(t).1 >= 2).collect();
+    seq_games.par_iter().for_each(|tree| {
+        let (profs, _) = profiles(tree, false, 60);
+        for prof in &profs {
+            for (first, second) in [(0.6, 0.25), (0.5, 0.1), (0.25, 0.6), (0.75, 0.5), (1.0, 0.25)] {
+                check_sequence(ctx, tree, prof, first, second);
+                ctx.case(2, true);
+                ctx.count("two_call_sequences", 1);
             }
         }
     });
@@ -184,6 +246,11 @@ pub fn run(ctx: &Ctx) -> i32 {
 pub fn replay(ctx: &Ctx, val: &serde_json::Value) -> i32 {
     let tree = Tree::from_replay(&val["tree"]);
     let prof = profile_from_json(&val["profile"]);
+    if let Some(second) = val["second"].as_f64() {
+        let ok = check_sequence(ctx, &tree, &prof, val["threshold"].as_f64().unwrap(), second);
+        println!("replay {}", if ok { "passes" } else { "fails" });
+        return if ok { 0 } else { 1 };
+    }
     let ok = check_case(ctx, &tree, &prof, val["threshold"].as_f64().unwrap());
     println!("replay {}", if ok { "passes" } else { "fails" });
     if ok { 0 } else { 1 }
